@@ -1,5 +1,37 @@
-"""parser layer of C01 (and the macroblock-syntax obligations shared with C04/C03): placeholder until the harnesses exist"""
+"""parser layer of C01 (and the macroblock-syntax obligation of C04): assume-guarantee in two steps.
+(1) the real VLC walk on each real table terminates within the longest code, consumes >= 1 bit, never sees a malformed
+    table (c01_vlc_walk_*);  (2) decode_macroblock / decode_block / decode_gob with read_vlc abstracted to "some End entry
+    of the table it was given, >= 1 bit consumed" satisfy the output contracts the decoder-core producers rely on."""
+from vf.driver import Job
+from vf import gen_h263 as g
+
+FAST = ["--no-pointer-check"]
+TABLES_MB = [("MCBPC_I_TABLE", 9), ("MCBPC_P_TABLE", 13), ("CBPY_TABLE_INTRA", 6), ("MVD_TABLE", 13), ("MODB_TABLE", 2)]
 
 
-def jobs(tier, seed):
-    return [], {}
+def jobs(tier, seed, only_c04=False):
+    out, gen_mb, gen_blk = [], "", ""
+    n = 16
+    gen_mb += g.pdisp(n)
+    out.append(Job("h263", g.pdisp_name(n), 2400, tagged=True, group="parser: macroblock syntax by picture type", params={"stream_bytes": n}))
+    if only_c04:
+        return out, {"h263/src/parser/macroblock.rs": gen_mb}
+    for t, depth in TABLES_MB:
+        gen_mb += g.walk(t, depth, t)
+        out.append(Job("h263", g.walk_name(t), 1800, tagged=True, group="parser: real VLC walk", params={"table": t, "longest_code_bits": depth}))
+    gen_blk += g.walk("TCOEF_TABLE", 13, "TCOEF_TABLE")
+    out.append(Job("h263", g.walk_name("TCOEF_TABLE"), 2400, tagged=True, group="parser: real VLC walk", params={"table": "TCOEF_TABLE", "longest_code_bits": 13}))
+    for pt, umv in [(0, False), (1, False), (2, False), (1, True)]:
+        nn = 16 if not umv else 24
+        gen_mb += g.pmb(nn, pt, umv)
+        out.append(Job("h263", g.pmb_name(nn, pt, umv), 2400, tagged=True, group="parser: macroblock structure", params={"stream_bytes": nn, "picture": "IPD"[pt], "umv": umv},
+                       unwind_by_fn={"read_umv": 14},
+                       allow_uncovered=("four-vector macroblock parsed",) if pt == 0 else ()))
+    gen_mb += g.pumv(4)
+    out.append(Job("h263", g.pumv_name(4), 1800, tagged=True, group="parser: read_umv (real)", params={"stream_bytes": 4}, unwind_by_fn={"read_umv": 14}))
+    for mode, intra in ([(0, True), (2, False)] if tier == "quick" else [(0, True), (0, False), (1, False), (2, True), (2, False)]):
+        nn = 6
+        gen_blk += g.pblk(nn, mode, intra, 9)
+        out.append(Job("h263", g.pblk_name(nn, mode, intra), 3000, tagged=True, group="parser: block structure", params={"stream_bytes": nn, "mode": ["standard", "sorenson v0", "sorenson v1"][mode], "intra": intra},
+                       allow_uncovered=("11-bit escape level",) if mode != 2 else ()))
+    return out, {"h263/src/parser/macroblock.rs": gen_mb, "h263/src/parser/block.rs": gen_blk}
